@@ -47,6 +47,9 @@ func FuncQName(f *ssa.Function) string {
 	if o := f.Origin(); o != nil {
 		f = o
 	}
+	if old := refName(f); old != "" {
+		return old // a renamed function keeps its reference name
+	}
 	return f.String()
 }
 
@@ -585,7 +588,13 @@ func fieldName(t types.Type, i int) string {
 		t = p.Elem()
 	}
 	if s, ok := t.Underlying().(*types.Struct); ok && i < s.NumFields() {
-		return s.Field(i).Name()
+		n := s.Field(i).Name()
+		if currentProg != nil && len(currentProg.fieldAlias) > 0 {
+			if old, renamed := currentProg.fieldAlias[NamedTypeName(t)+"."+n]; renamed {
+				return old // a renamed field keeps its reference name
+			}
+		}
+		return n
 	}
 	return fmt.Sprintf("#%d", i)
 }
